@@ -129,6 +129,15 @@ def simplify_families(tier: str) -> Dict[str, List[Any]]:
     strs += [('bin', 'and', ('call', 'bool', a), P) for a in s0] + [('call', 'bool', a) for a in s0]
     strs += [('bin', '=', ('call', 'str', a), b) for a in s0 for b in s0]
     fam['strings'] = strs
+    # sums / products with the same variable term and constants that are equal in VALUE but spelled differently
+    spell = [('tok', '1'), ('tok', '1.0'), ('tok', '1e0'), ('tok', '2'), ('tok', '2.0'), ('tok', '10'), ('tok', '1e1'), ('tok', '0.5'), ('tok', '.5'), ('tok', '007'), ('tok', '7'),
+             ('bin', '/', L(2), L(2)), ('bin', '+', L(0.5), L(0.5))]
+    twins = []
+    for t in (X, AX):
+        sums = [('bin', o, t, c) for o in ('+', '-', '*') for c in spell]
+        twins += bins(('=', '!=', '<'), sums[::2], sums[1::2]) if tier != 'thorough' else bins(('=', '!=', '<', '>='), sums, sums)
+    twins += [('bin', '=', a, b) for a in spell for b in spell]
+    fam['equal-values-different-spelling'] = twins
     return {k: uniq(v) for k, v in fam.items()}
 
 
